@@ -113,6 +113,24 @@ def run_impl_list(op):
     return guard(lambda: bytes(ND.compute_extension_key(list(op[1]))))
 
 
+class SubBytes(bytes):
+    """a bytes subclass (like hexbytes.HexBytes): a legal bytes value wherever bytes are taken"""
+
+
+def run_impl_sub(op):
+    """same call with every bytes argument an instance of a proper subclass of bytes"""
+    return run_impl(tuple(SubBytes(x) if type(x) is bytes else x for x in op))
+
+
+def sub_check(op, out):
+    if op[0] in ("CKeccak", "CRlpEnc") or not any(type(x) is bytes for x in op[1:]):
+        return None
+    alt = run_impl_sub(op)
+    if alt != out:
+        return f"{op[0]} behaves differently for an instance of a bytes subclass than for the same bytes: {alt!r} vs {out!r}"
+    return None
+
+
 def unfreeze(n):
     return bytes(n) if isinstance(n, (bytes, bytearray)) else [unfreeze(x) for x in n]
 
@@ -354,7 +372,7 @@ def check(tier, seed):
                                           {"op": op, "impl": out, "impl_list": alt}))
         R.evaluations += 1
         R.count(op[0] + ("_err" if isinstance(out, Exc) else ""))
-        bad = oracle(op, out)
+        bad = oracle(op, out) or sub_check(op, out)
         if bad:
             R.spec_violations.append((bad, {"op": op, "impl": out}))
         if len(op[1]) > 0:
@@ -386,7 +404,13 @@ def check(tier, seed):
 def replay(payload):
     op = payload["case"]["op"]
     op = tuple(op)
+    if op == ("decode_node",):
+        bad = decode_node_check()
+        print("replay:", "VIOLATES: " + bad if bad else "holds")
+        return 1 if bad else 0
     out = run_impl(op)
-    bad = oracle(op, out)
+    bad = oracle(op, out) or sub_check(op, out)
+    if not bad and op[0] in ("CEncode", "CHP", "CN2B", "CLeafKey", "CExtKey") and run_impl_list(op) != out:
+        bad = "behaves differently for a list than for a tuple of the same nibbles"
     print("replay:", "VIOLATES: " + bad if bad else "holds", C.to_json(out))
     return 1 if bad else 0
